@@ -416,6 +416,7 @@ def gen_C09(rng, tier):
         qs = [C.query(0, "ecdf", side="right", ys=ys), C.query(0, "ecdf", side="left", ys=ys),
               C.query(0, "percentile", ps=ps), C.query(0, "fractile", ps=[p / 100 for p in ps]),
               C.query(0, "median"), C.query(0, "mode"), C.query(0, "value_sums"),
+              C.query(0, "describe", lo=None, hi=None, ps=[F(25), F(50), F(75)]) if pow2 else C.query(0, "median"),
               C.query(0, "hist", bins=bins, closed=rng.choice(SIDES), stat=hstat)]
         rng.shuffle(qs)
         prog = [leaf_stmt(0, f, c)] + qs[: rng.randint(4, 8)]
@@ -756,4 +757,194 @@ def gen_C15(rng, tier):
     return cases
 
 
-GENS = {"C12": gen_C12, "C13": gen_C13, "C14": gen_C14, "C15": gen_C15, "C16": gen_C16, "C08": gen_C08, "C09": gen_C09, "C10": gen_C10, "C01": gen_C01, "C02": gen_C02, "C03": gen_C03, "C04": gen_C04, "C05": gen_C05, "C06": gen_C06, "C07": gen_C07}
+# ----------------------------------------------------------------------------- C11 slicing
+def rand_intervals(rng, leaf, tiling=False):
+    pts = leaf_points(leaf)
+    grid = sorted(set(pts + [p + F(1, 4) for p in pts]))
+    if tiling:
+        k = rng.randint(2, min(5, len(grid)))
+        cuts = sorted(rng.sample(grid, k))
+        return list(zip(cuts, cuts[1:]))
+    out = []
+    for _ in range(rng.randint(1, 4)):
+        a, b = sorted(rng.sample(grid, 2))
+        out.append((a, b))
+    return out       # overlapping, gapped, unordered alike
+
+
+SSTATS = ["mean", "integral", "median", "mode", "min", "max"]
+
+
+def gen_C11(rng, tier):
+    n = 1200 if tier == "quick" else 10000
+    small = canonical_leaves([F(0), F(1), F(2)], [None, F(0), F(1), F(2)])
+    cases = []
+    for k in range(2 * n):
+        f = rng.choice(small) if k % 3 == 0 else rand_leaf(rng, maxn=5)
+        c = rng.choice(SIDES)
+        icl = rng.choice(IVC)
+        prog = [leaf_stmt(0, f, c)]
+        if k % 2 == 0:
+            ivs = rand_intervals(rng, f, tiling=rng.random() < 0.4)
+            for st in rng.sample(SSTATS, 3):
+                prog.append(C.query(0, "slicer", stat=st, icl=icl, ivs=ivs))
+            tag = "stat"
+        else:
+            ivs = rand_intervals(rng, f, tiling=True)
+            st = rng.choice(["mean", "max", "min", "median", "integral"])
+            prog.append(C.resample(1, 0, st, rng.choice(["left", "right", "neither"]), ivs))
+            prog += observe_all(1, leaf_points(f, [a for a, _ in ivs] + [b for _, b in ivs]))
+            tag = "resample"
+        fl = flav(rng, has_nan(f))
+        fl["cuts"] = rng.choice(["index", "breaks"])
+        fl["slicecall"] = rng.choice(["direct", "agg", "apply"])
+        cases.append(mk(f"C11/{tag}/{k}", prog, fl, mode="tol", tags=[tag]))
+    return cases
+
+
+# ----------------------------------------------------------------------------- C18 collections
+GFUNCS = ["sum", "mean", "median", "min", "max", "logical_or", "logical_and"]
+COLLS = ["list", "tuple", "dict", "ndarray", "series", "array", "method", "accessor"]
+
+
+def gen_C18(rng, tier):
+    n = 1500 if tier == "quick" else 12000
+    small = canonical_leaves([F(0), F(1), F(2)], [None, F(0), F(1), F(2)])
+    cases = []
+    for k in range(2 * n):
+        m = rng.choice([1, 2, 2, 3, 4, 4])
+        base = rng.choice(SIDES)
+        leaves, prog = [], []
+        for i in range(m):
+            lf = rng.choice(small) if k % 2 else rand_leaf(rng, maxn=3, vals=[F(j, 2) for j in range(-4, 5)])
+            if rng.random() < 0.15:
+                lf = ([], [rng.choice([F(0), F(1), F(3), None])])      # step-free member
+            if i > 0 and rng.random() < 0.1:
+                lf = leaves[0]                                         # duplicates
+            leaves.append(lf)
+            prog.append(leaf_stmt(i, lf, base if rng.random() < 0.93 else rng.choice(SIDES)))
+        g = rng.choice(GFUNCS)
+        prog.append(C.agg(m, g, list(range(m))))
+        allpts = sorted(set().union(*[set(l[0]) for l in leaves]))
+        prog += observe_all(m, leaf_points((allpts, None)))
+        if g == "sum" and m >= 2:      # sum equals folding +
+            acc = 0
+            r = m + 1
+            for i in range(1, m):
+                prog.append(C.bin_(r, "add", C.reg(acc), C.reg(i)))
+                acc = r
+                r += 1
+            prog.append(C.query(m, "identical", a=C.reg(acc)))
+        fl = flav(rng, any(has_nan(l) for l in leaves))
+        fl["coll"] = rng.choice(COLLS)
+        exact = g not in ("mean",) or m in (1, 2, 4)
+        cases.append(mk(f"C18/{g}/{k}", prog, fl, mode="exact" if exact else "tol", tags=[g]))
+    return cases
+
+
+# ----------------------------------------------------------------------------- C19 cov / corr
+def gen_C19(rng, tier):
+    n = 1500 if tier == "quick" else 12000
+    cases = []
+    for k in range(2 * n):
+        f, g = rand_leaf(rng, maxn=4, vals=[F(j, 2) for j in range(-4, 5)]), rand_leaf(rng, maxn=4, vals=[F(j, 2) for j in range(-4, 5)])
+        c = rng.choice(SIDES)
+        pts = leaf_points(f, g[0])
+        lo = rng.choice(pts)
+        hi = rng.choice([p for p in pts if p > lo] + [pts[-1] + 2])
+        if rng.random() < 0.1:
+            lo, hi = None, None
+        prog = [leaf_stmt(0, f, c), leaf_stmt(1, g, c)]
+        lag = rng.choice([F(0), F(0), F(1), F(-1), F(1, 2)])
+        clip = rng.choice(["pre", "post"])
+        kind = rng.choice(["cov", "corr"])
+        prog.append(C.query(0, kind, b=1, lo=lo, hi=hi, lag=lag, clip=clip))
+        prog.append(C.query(1, kind, b=0, lo=lo, hi=hi))          # symmetry partner (no lag)
+        prog.append(C.query(0, kind, b=1, lo=lo, hi=hi))
+        prog.append(C.query(0, "cov", b=0, lo=lo, hi=hi))          # cov(f, f) = var(f)
+        prog.append(C.query(0, "agg", name="var", lo=lo, hi=hi))
+        if lag != 0:                                                # lag equivalent to shifting g by -lag
+            prog.append(C.shift(2, 1, -lag))
+            hi2 = hi - lag if (clip == "pre" and hi is not None) else hi
+            if lo is None or hi2 is None or lo < hi2:
+                prog.append(C.query(0, kind, b=2, lo=lo, hi=hi2))
+        cases.append(mk(f"C19/{kind}/{k}", prog, flav(rng, has_nan(f) or has_nan(g)), mode="tol", tags=[kind]))
+    return cases
+
+
+# ----------------------------------------------------------------------------- C20 shift / diff / rolling_mean
+def gen_C20(rng, tier):
+    n = 1200 if tier == "quick" else 10000
+    small = canonical_leaves(SMALL_PTS, SMALL_VALS)
+    cases = []
+    for k in range(3 * n):
+        f = rng.choice(small) if k % 2 else rand_leaf(rng)
+        c = rng.choice(SIDES)
+        prog = [leaf_stmt(0, f, c)]
+        kind = k % 3
+        if kind == 0:
+            d = rng.choice([F(0), F(1), F(-1), F(1, 2), F(-5, 2), F(3)])
+            prog.append(C.shift(1, 0, d))
+            prog += observe_all(1, leaf_points(f, [p + d for p in f[0]]))
+            tag = "shift"
+        elif kind == 1:
+            d = rng.choice([F(1), F(-1), F(1, 2), F(2), F(0)])
+            prog.append(C.diff(1, 0, d))
+            prog += [C.shift(2, 0, d), C.bin_(3, "sub", C.reg(0), C.reg(2)), C.query(1, "identical", a=C.reg(3))]
+            prog += observe_all(1, leaf_points(f, [p + d for p in f[0]]))
+            tag = "diff"
+        else:
+            l, r = rng.choice([(F(-1), F(0)), (F(0), F(1)), (F(-1, 2), F(1, 2)), (F(-2), F(1)), (F(-1), F(-1, 2)), (F(1, 2), F(2))])
+            pts = leaf_points(f)
+            lo = rng.choice([None] + pts)
+            hi = rng.choice([None] + [p for p in pts if lo is None or p > lo])
+            prog.append(C.query(0, "rolling", l=l, rr=r, lo=lo, hi=hi))
+            tag = "rolling"
+        cases.append(mk(f"C20/{tag}/{k}", prog, flav(rng, has_nan(f)), mode="tol" if tag == "rolling" else "exact", tags=[tag]))
+    return cases
+
+
+# ----------------------------------------------------------------------------- C17 domains
+DOMS = ["int", "float", "dt", "tz", "dst", "utc", "td"]
+
+
+def int_leaf(rng, nan=0.3):
+    lf = rand_leaf(rng, maxn=4, nan=nan, grid=1, span=8, vals=[F(j, 2) for j in range(-4, 5)])
+    return lf
+
+
+def gen_C17(rng, tier):
+    """programs over C01-C11, C18-C20 operations with integer step points, replayed in every domain type"""
+    n = 110 if tier == "quick" else 1000
+    cases = []
+    for k in range(n):
+        f, g = int_leaf(rng), int_leaf(rng)
+        c = rng.choice(SIDES)
+        pts = leaf_points(f, g[0])
+        ipts = [p for p in pts if p.denominator == 1]
+        lo = rng.choice(ipts)
+        hi = rng.choice([p for p in ipts if p > lo] + [ipts[-1] + 2])
+        P = [leaf_stmt(0, f, c), leaf_stmt(1, g, c)]
+        r = 2
+        for op in rng.sample(["add", "sub", "mul", "lt", "ge", "eq", "and", "or"], 3):
+            P.append(C.bin_(r, op, C.reg(0), C.reg(1))); r += 1
+        P += [C.clip(r, 0, lo, hi), C.maskt(r + 1, 0, lo, hi), C.mask(r + 2, 0, 1), C.fillg(r + 3, 0, 1), C.un(r + 4, "ffill", 0),
+              C.shift(r + 5, 0, rng.choice([F(1), F(-2)])), C.diff(r + 6, 0, F(1)), C.agg(r + 7, rng.choice(["sum", "max", "logical_or"]), [0, 1])]
+        r += 8
+        P.append(C.un(r, "copy", 0))
+        P.append(rand_layer_call(rng, r, pts=[None] + ipts))
+        P += [C.query(0, "limit", side="left", xs=ipts), C.query(0, "limit", side="right", xs=ipts), C.query(0, "sample", xs=ipts),
+              C.query(0, "points"), C.read(0, "values"), C.read(0, "deltas"),
+              C.query(0, "integral"), C.query(0, "mean"), C.query(0, "value_sums"), C.query(0, "agg", name="mean", lo=lo, hi=hi),
+              C.query(0, "vir", lo=lo, hi=hi, closed=rng.choice(IVC)), C.query(0, "max", lo=lo, hi=hi, closed=rng.choice(IVC)),
+              C.query(0, "slicer", stat=rng.choice(["mean", "max", "integral"]), icl=rng.choice(IVC), ivs=[(lo, hi), (lo, hi + 1)]),
+              C.query(0, "cov", b=1, lo=lo, hi=hi + 1), C.query(0, "rolling", l=F(-1), rr=F(1), lo=lo, hi=hi + 2)]
+        base_fl = flav(rng, has_nan(f) or has_nan(g))
+        for dom in DOMS:
+            fl = dict(base_fl)
+            fl["dom"] = dom
+            cases.append(mk(f"C17/{k}/{dom}", P, fl, mode="tol", tags=[dom]))
+    return cases
+
+
+GENS = {"C11": gen_C11, "C17": gen_C17, "C18": gen_C18, "C19": gen_C19, "C20": gen_C20, "C12": gen_C12, "C13": gen_C13, "C14": gen_C14, "C15": gen_C15, "C16": gen_C16, "C08": gen_C08, "C09": gen_C09, "C10": gen_C10, "C01": gen_C01, "C02": gen_C02, "C03": gen_C03, "C04": gen_C04, "C05": gen_C05, "C06": gen_C06, "C07": gen_C07}
